@@ -27,6 +27,8 @@ pub enum Q {
 pub enum Op {
     Commit(Step),
     CommitEos,
+    /// like CommitEos, with the last of the vocabulary's EOS tokens (a secondary one if there are several)
+    CommitEosLast,
     Rollback(u16),
     Reset,
     Query(Q),
@@ -57,6 +59,7 @@ pub fn op_strategy(rollback_weight: u32, query_weight: u32) -> BoxedStrategy<Op>
     prop_oneof![
         10 => step_strategy().prop_map(Op::Commit),
         1 => Just(Op::CommitEos),
+        1 => Just(Op::CommitEosLast),
         rollback_weight => any::<u16>().prop_map(Op::Rollback),
         1 => Just(Op::Reset),
         query_weight => q_strategy().prop_map(Op::Query),
@@ -203,7 +206,7 @@ pub fn run_history(prefix: &'static str, case: &Case, ctx: &mut Ctx) -> R {
                 done_ops.push(format!("commit({})", t));
                 continue;
             }
-            Op::CommitEos => {
+            Op::CommitEos | Op::CommitEosLast => {
                 let mut fr = match fresh(&vocab, &case.g, &tokens) {
                     Ok(x) => x,
                     Err(_) => return Ok(()),
@@ -211,12 +214,12 @@ pub fn run_history(prefix: &'static str, case: &Case, ctx: &mut Ctx) -> R {
                 if fr.is_stopped() || !fr.is_accepting().unwrap_or(false) {
                     continue;
                 }
-                let e = vocab.eos[0];
+                let e = if *op == Op::CommitEosLast { *vocab.eos.last().unwrap() } else { vocab.eos[0] };
                 if let Err(er) = m.consume_token(e) {
                     return ctx.fail(&key("eos-commit-failed-in-accepting-state"), || tag!(&short_err(&er.to_string())));
                 }
                 tokens.push(e);
-                done_ops.push("commit(EOS)".into());
+                done_ops.push(format!("commit(EOS {})", e));
                 crossed_interesting = true;
                 continue;
             }
